@@ -2,6 +2,7 @@ import KpModel.Db.MergeTerm
 import KpModel.Db.MergeInv
 import KpModel.Db.MergeLemmas
 import KpModel.Db.MergeSpec
+import KpModel.Db.MergeNoPanic
 /-!
 # C16 — merge always terminates, succeeds on related replicas, and keeps the tree sound
 Property theorems only.  `merge_group`, the entry pass of `merge_deletions` and every lookup are structurally
@@ -105,5 +106,29 @@ theorem C16_no_node_from_nowhere (now : Int) (dst src d' : Db) (evs : List Event
     (hn : (uuidsL dst.root.children).Nodup) (h : merge now dst src = .ok (d', evs)) :
     ∀ u ∈ uuidsL d'.root.children, u ∈ uuidsL dst.root.children ∨ u ∈ uuidsL src.root.children :=
   merge_noForeignNodes now dst src d' evs ⟨hr, hn⟩ h
+
+/-- **C16 (merge does not panic)**: `merge` reaches none of the `unwrap()`s of `merge_group` (an entry looked up where the
+    destination has a group, or the other way round) and of `History::merge_with` (a version without a modification time) —
+    the model's errors `panicKindMismatch` and `panicHistoryNoMtime` — whenever the two replicas agree on kinds: for lists `EI`,
+    `GI` of the source's entry and group UUIDs, the destination is a group with pairwise distinct UUIDs below it that has no
+    group under an `EI` UUID and no entry under a `GI` UUID, and every entry version on either side, current or historical,
+    carries a modification time.  Every intermediate tree of the merge is again such a tree (nodes are created with the source's
+    kind, updated in place, moved, or removed), which is what the look-ups need; `find_node_location` is sound on such a tree
+    (`findLoc_sound`).  Whatever `merge` returns is then `Ok` or one of the error *values* (never a panic). -/
+theorem C16_merge_never_panics {EI GI : List Nat} (now : Int) (dst src : Db)
+    (hr : dst.root.isGroup = true) (hn : (uuidsL dst.root.children).Nodup)
+    (hkg : allG (fun x _ _ => x ∉ EI) dst.root) (hke : allE (fun e => e.d.uuid ∉ GI) dst.root) (hte : allE TimedE dst.root)
+    (hse : allE (fun e => e.d.uuid ∈ EI ∧ e.d.uuid ∉ GI ∧ TimedE e) src.root) (hsg : allG (fun x _ _ => x ∈ GI ∧ x ∉ EI) src.root)
+    (e : MErr) (h : merge now dst src = .error e) : e ≠ .panicKindMismatch ∧ e ≠ .panicHistoryNoMtime := by
+  have := merge_noPanic now dst src ⟨⟨hr, hn⟩, hkg, hke, hte⟩ ⟨hse, hsg⟩ e h
+  exact ⟨fun he => this (Or.inl he), fun he => this (Or.inr he)⟩
+
+/-- the premises are met by a non-trivial pair (an entry with a history in a sub-group; the source holds it elsewhere) -/
+example :
+    let dst : Node := .group 1 0 ⟨some 5, none, 0⟩ [.group 2 0 ⟨some 5, none, 0⟩ [.entry ⟨⟨10, 7, ⟨some 20, none, 0⟩⟩, some [⟨10, 6, ⟨some 9, none, 0⟩⟩]⟩]]
+    let src : Node := .group 1 0 ⟨some 5, none, 0⟩ [.group 2 0 ⟨some 5, none, 0⟩ [], .entry ⟨⟨10, 9, ⟨some 30, some 25, 0⟩⟩, some []⟩]
+    allG (fun x _ _ => x ∉ [10]) dst ∧ allE (fun e => e.d.uuid ∉ [1, 2]) dst ∧ allE TimedE dst
+    ∧ allE (fun e => e.d.uuid ∈ [10] ∧ e.d.uuid ∉ [1, 2] ∧ TimedE e) src ∧ allG (fun x _ _ => x ∈ [1, 2] ∧ x ∉ [10]) src := by
+  simp [allG, allGL, allE, allEL, TimedE]
 
 end Kp.Merge
